@@ -327,6 +327,10 @@ pub fn targeted() -> Vec<(Who, Vec<String>)> {
         t.push((who, vec!["set-primary 127.0.0.1:2".into(), "set-primary 127.0.0.1:2".into(), "set-primary 127.0.0.1:3".into(), "election win".into(), "set-primary 127.0.0.1:2".into()]));
         t.push((who, vec!["create-db x/y t".into(), "snapshot false x/y".into(), "use-db $admin pwd".into(), "snapshot true".into(), "snapshot false db|adb|$admin".into()]));
         // a database whose name carries a separator of the internal message formats, then every command that names it
+        // names longer than a file name may be (the name is part of the data file names)
+        for long in ["n".repeat(241), "n".repeat(256), "é".repeat(128), "n".repeat(5000)] {
+            t.push((who, vec![format!("create-db {} tok", long), format!("use-db {} tok", long), "set k v".into(), format!("snapshot false {}", long), "snapshot true".into(), "set k w".into(), "snapshot false".into()]));
+        }
         for odd in ["a\nb", "a\rb", "a\tb", "a|b", "a\u{b}b", "a;b", " a", "a\u{a0}b", "a\r\n", "\n"] {
             t.push((who, vec![format!("create-db {} tok", odd), format!("use-db {} tok", odd), "set k v".into(), "increment n".into(), "remove k".into(), "create-user u p".into(),
                 format!("snapshot false {}", odd), format!("snapshot true {}|db", odd), "snapshot false".into(), format!("replicate-snapshot {} false", odd), format!("replicate {} k 1 v", odd)]));
